@@ -205,6 +205,20 @@ pub fn gen(tier: &str, seed: u64) -> Vec<String> {
         let h = loop_history(&mut r, &keys, n_ev, gaps, 700);
         lines.push(mk_kline("KAN", false, &cfg, &h));
     }
+    // chv2: whole-grammar configurations with a `defchordsv2` table (the kanata-level model runs over
+    // the layout with chords v2: can_block's cool-down clause, is_idle's chords-v2 conjunct)
+    let mut r2 = Rng::new(seed ^ 0xC07C2);
+    for i in 0..(if thorough { 6000 } else { 500 }) {
+        let (cfg, keys) = crate::chv2gen::gen_full_cfg_chv2(&mut r2, true);
+        let gaps: &[u32] = match i % 3 {
+            0 => &[1, 2, 3, 5, 10, 11],
+            1 => &[1, 4, 19, 20, 21, 49, 50, 51],
+            _ => &[1, 1, 30, 600],
+        };
+        let n_ev = r2.range(1, 14) as usize;
+        let h = loop_history(&mut r2, &keys, n_ev, gaps, 700);
+        lines.push(mk_kline("KAN", false, &cfg, &h));
+    }
     lines
 }
 
